@@ -3,7 +3,7 @@
 (* iterators fed from an outer iterator of iterables; a random slot is advanced; an exhausted slot is       *)
 (* refilled from the outer iterator, or, when that is exhausted, overwritten by the last slot.              *)
 (* Inner iterable k has Lens[k] items; item j of iterable k is the number 10 * k + j.                       *)
-EXTENDS Naturals, Sequences, FiniteSets, TLC
+EXTENDS Naturals, Sequences, FiniteSets
 
 CONSTANTS Lens, B
 
